@@ -204,16 +204,21 @@ Section Spectral.
       by (intros; ring). ring.
   Qed.
 
+  Lemma read_upper_cov_upper n X a b :
+    of_nat n <> 0 -> read_upper (cov_upper n X) a b = cov_full n X a b.
+  Proof.
+    intros Hn. destruct (Nat.le_gt_cases a b) as [Hab|Hab].
+    - rewrite read_upper_le by assumption. apply cov_upper_is_cov_full; assumption.
+    - rewrite read_upper_gt by assumption. rewrite (cov_full_sym n X a b).
+      apply cov_upper_is_cov_full; [assumption|lia].
+  Qed.
+
   Theorem pca_matrix_fixed_is_cov_full n X a b :
     of_nat n <> 0 -> two <> 0 -> pca_matrix_fixed n X a b = cov_full n X a b.
   Proof.
-    intros Hn H2. unfold pca_matrix_fixed, sym_avg, sym_from_upper, read_upper.
-    destruct (Nat.leb a b) eqn:E1; destruct (Nat.leb b a) eqn:E2;
-      try apply Nat.leb_le in E1; try apply Nat.leb_le in E2;
-      try apply Nat.leb_gt in E1; try apply Nat.leb_gt in E2;
-      rewrite ?(cov_upper_is_cov_full n X a b), ?(cov_upper_is_cov_full n X b a) by (assumption || lia);
-      rewrite ?(cov_full_sym n X b a); try (field; exact H2).
-    lia.
+    intros Hn H2. unfold pca_matrix_fixed, sym_avg, sym_from_upper.
+    rewrite !read_upper_cov_upper by assumption. rewrite (cov_full_sym n X b a).
+    unfold two in *. field. exact H2.
   Qed.
 
   Theorem pca_matrix_shipped_entry n X a b :
@@ -224,16 +229,16 @@ Section Spectral.
     intros Hn H2. unfold pca_matrix_shipped, sym_avg.
     destruct (Nat.eqb a b) eqn:E.
     - apply Nat.eqb_eq in E. subst b. rewrite cov_upper_is_cov_full by (assumption || lia).
-      field. exact H2.
+      unfold two in *. field. exact H2.
     - apply Nat.eqb_neq in E. destruct (Nat.lt_ge_cases a b) as [Hlt|Hge].
       + rewrite (cov_upper_is_cov_full n X a b) by (assumption || lia).
         rewrite (cov_upper_entry n X b a).
         replace (Nat.leb b a) with false by (symmetry; apply Nat.leb_gt; lia).
-        field. split; assumption.
+        unfold two in *. field. split; assumption.
       + rewrite (cov_upper_is_cov_full n X b a) by (assumption || lia).
         rewrite (cov_upper_entry n X a b).
         replace (Nat.leb a b) with false by (symmetry; apply Nat.leb_gt; lia).
-        rewrite (cov_full_sym n X b a). field. split; assumption.
+        rewrite (cov_full_sym n X b a). unfold two in *. field. split; assumption.
   Qed.
 
   (* ================================================================== *)
